@@ -33,8 +33,9 @@ Every mode accepts "adv": key.  Then the name `set` in the namespaces of parser.
 a subclass of set whose iteration order is dictated by the key ("asc": sorted, "desc": reverse sorted, anything
 else: sorted by sha256(key, element)) - a stand-in for "another platform's set ordering" that does not depend on
 the handful of permutations the hash seeds happen to produce.  Set displays / comprehensions of the source are
-not affected (they build the builtin type).
+rewritten into calls of `set` (the two modules are re-executed in place from their rewritten ast), so they are dictated too.
 """
+import ast
 import hashlib
 import json
 import os
@@ -204,11 +205,35 @@ def make_advset(key):
     return AdvSet
 
 
+class _SetRewriter(ast.NodeTransformer):
+    """{a, b} -> set([a, b]);  {f(x) for x in y} -> set([f(x) for x in y]): every set of the module is then built through the name
+    `set` (the dictated-order class).  The list keeps the evaluation order of the display / comprehension, so the elements, their
+    insertion order and every side effect are the same - only the class of the result differs."""
+
+    def visit_Set(self, node):
+        self.generic_visit(node)
+        return ast.copy_location(ast.Call(func=ast.Name(id="set", ctx=ast.Load()), args=[ast.List(elts=node.elts, ctx=ast.Load())], keywords=[]), node)
+
+    def visit_SetComp(self, node):
+        self.generic_visit(node)
+        return ast.copy_location(ast.Call(func=ast.Name(id="set", ctx=ast.Load()),
+                                          args=[ast.ListComp(elt=node.elt, generators=node.generators)], keywords=[]), node)
+
+
 def install_adv(key):
+    """bind `set` in parser.py / emitter.py to the dictated-order class and re-execute both modules, in place, from their source
+    with every set display / set comprehension turned into a call of `set` (so that those are dictated as well)"""
+    global emit, parse
     import Reduino.transpile.emitter as E
     cls = make_advset(key)
-    P.set = cls
-    E.set = cls
+    for mod in (P, E):
+        mod.__dict__["set"] = cls
+        with open(mod.__file__, encoding="utf-8") as fh:
+            tree = ast.parse(fh.read(), mod.__file__)
+        tree = ast.fix_missing_locations(_SetRewriter().visit(tree))
+        exec(compile(tree, mod.__file__, "exec"), mod.__dict__)
+        mod.__dict__["set"] = cls
+    emit, parse = E.emit, P.parse
     return cls
 
 
